@@ -279,8 +279,10 @@ class VerifyRun:
         if o == "ok" and ranbad:
             rep.mismatch({"kind": "inspection_failed_but_verification_passed", "names": sorted(ranbad)}, mk)
         if o == "ok" and self.sums[i]:
-            if norm_sum(r.get("sum")) not in self.sums[i] or r.get("sum", {}).get("name", "") != "":
+            if norm_sum(r.get("sum")) not in self.sums[i]:
                 rep.mismatch({"kind": "summary", "actual": r.get("sum")}, mk)
+            if r.get("name_ok") is False:
+                rep.mismatch({"kind": "summary_not_under_the_requested_name", "actual": r.get("sum", {}).get("name")}, mk)
         if o not in self.algo[i]:
             rep.cov["drift"] += 1
         if o == "ok":
@@ -763,7 +765,7 @@ def check_C10(rep, tier):
         if i % 97 == 11:
             rep.sample({"value": s["v"], "allowed": s["allow"]})
 
-    st = run_tlc("MC_C10", f"MC_C10_{tier}.cfg", "c10", on_scn=on_scn)
+    st = run_tlc("MC_C10", f"MC_C10_{tier}.cfg", "c10", on_scn=on_scn, java_opts="-Xss512m")
     require_clean(st, "MC_C10")
     rep.add_tlc(st, "MC_C10")
     rep.vacuity(["Convert", "WriteOut"])
